@@ -275,11 +275,14 @@ func (t *objectType) Equals(other interface{}, guard px.Guard) bool {
 	if guard.Seen(t, ot) {
 		return true
 	}
-	return t.attributes.Equals(ot.attributes, guard) &&
+	r := t.attributes.Equals(ot.attributes, guard) &&
 		t.functions.Equals(ot.functions, guard) &&
 		t.parameters.Equals(ot.parameters, guard) &&
 		px.Equals(t.equality, ot.equality, guard) &&
 		px.Equals(t.serialization, ot.serialization, guard)
+	// only a comparison in progress is assumed to be true
+	guard.Done(t, ot)
+	return r
 }
 
 // anonymousName: the name `Object` of the default Object type is no name (see initHash)
